@@ -29,6 +29,7 @@ def bounds(tier):
     q = tier == "quick"
     return {"perm": f"partition: values 0..4, 1..5 items (all permutations), k=2..4; packing B=6 values 0..6 1..{4 if q else 5} items; covering B=6 values 1..9 1..{4 if q else 5} items",
             "scale": "partition: values 0..5, 1..5 items, k=1..4; packing: all sequences 1..4 items over 0..6 (B=6); covering: multisets 1..5 items over 1..9 (B=6)",
+            "scale, odd bin sizes": "B in {7, 9, 15} with items 1, 2 and the integers next to B/3, B/2, B: multisets of 1..5(6), covers and packers, all five factors",
             "zeros": f"values 1..6, 1..{5 if q else 6} items, k=2..4, +1/+2 zeros",
             "agree-separating": "the 1091 objective-separating instances of tools/gen_separating.py (see C02), all exact algorithms, dp in both output families",
             "agree-fine": "offset letters {b/2+7, b+1, b+5, b+6, 2b+1, 2b+8}, b in {1e5, 1e6, 2**24, 1e9}, 4..5(6) items, k=2..3; 7 items over fibonacci 1..21" + ("" if q else " and 8 items over 1..34") + ", k=3: cg/ckk/snp/rnp/dp (both output families) must agree",
@@ -50,6 +51,11 @@ def tasks(tier):
         ts.append(("scale-packing", ch, 6))
     for ch in scopes.chunk_multisets(range(1, 10), 1, 5, 200):
         ts.append(("scale-covering", ch, 6))
+    # odd bin sizes (an integer division at a class threshold is not scale-invariant), items around (B-1)/2 and B/3
+    for Bo in (7, 9, 15):
+        for ch in scopes.chunk_multisets(sorted({1, 2, Bo // 3, Bo // 3 + 1, (Bo - 1) // 2, (Bo + 1) // 2, Bo - 1, Bo}), 1, 5 if q else 6, 200):
+            ts.append(("scale-covering", ch, Bo))
+            ts.append(("scale-packing", ch, Bo))
     for ch in scopes.chunk_multisets(range(1, 7), 1, 5 if q else 6, 20):
         ts.append(("zeros", ch, (2, 3, 4)))
     if q:
